@@ -3,7 +3,7 @@ from ..main import k_suite, Violation, parse_mismatch, Trace, pick_mismatch
 from .. import gen
 
 LEAN_MODULES = ["Shm.Props.C20"]
-GEN_TABLES = ["ClassTable.lean", "AttrUpdate.lean", "MechTable.lean", "Access.lean"]
+GEN_TABLES = ["ClassTable.lean", "AttrUpdate.lean", "MechTable.lean", "Access.lean", "DbKinds.lean"]
 LEVEL = "proof"
 VARIANTS = lambda tier: ("plain", "db", "botan", "botandb")
 CONFIGS = [("db", "db", "file+SQLite / OpenSSL"), ("botan", "file", "files / Botan"), ("botandb", "db", "SQLite / Botan")]
@@ -22,11 +22,19 @@ ASSUMPTIONS = ["mechanisms the reference does not compute (DES, PSS, OAEP, EdDSA
 def classify(variant, m):
     """known structural differences get a stable name; anything else is identified by what differed"""
     if variant in ("db", "botandb") and m["op"] == "copy": return "sqlite:copy-of-token-object"
+    if variant in ("db", "botandb") and m.get("result") is not None:
+        # A C_CopyObject that "succeeded" on SQLite leaves an object without the source's attributes on the token (the known finding): every later disagreement of that
+        # trace is its consequence (searches that meet the attribute-less object fail or miss it).  Only the object histories still contain copies on the SQLite builds.
+        lines = m["result"].transcript.splitlines()
+        for i in range(0, min(len(lines) - 1, m["line"])):
+            if lines[i].startswith("copy ") and lines[i + 1].startswith("= 0 "): return "sqlite:copy-of-token-object"
     if variant in ("botan", "botandb"):
         if m["op"] in ("encupd", "decupd") and m["cat"] == "nums" and m["implrv"] == 0 and m["modelrv"] == 0: return "botan:multipart-output-distribution"
         if m["op"] in ("encupd", "decupd", "encfinal", "decfinal") and m["cat"] in ("rvclass", "rvcode", "nums", "vals") and ("336" in (str(m["implrv"]), str(m["modelrv"]))):
             return "botan:multipart-output-distribution"
         if m["cat"] == "crypto" and m["op"] == "dec" and m["opline"].split()[2] == ".": return "botan:decrypt-of-empty-input"
+        # the same through the multi-part calls: C_DecryptFinal with nothing fed (the reference decrypts to the empty string, the token answers CKR_GENERAL_ERROR)
+        if m["cat"] == "crypto" and m["op"] == "decfinal" and m["implrv"] == 5 and "reference decrypts to ." in m["why"]: return "botan:decrypt-of-empty-input"
     return "%s:%s.%s.model%s.impl%s" % (variant, m["op"], m["cat"], m["modelrv"], m["implrv"])
 
 
@@ -41,7 +49,10 @@ def run_k(ctx, kres):
     for variant, backend, what in CONFIGS:
         if not ctx.stamp["variants"].get(variant, {}).get("ok"):
             v.append(Violation("%s:build" % variant, "configuration %s does not build from the current tree: %s" % (what, str(ctx.stamp["variants"].get(variant))[-800:]), "{}", False)); continue
-        traces = [Trace("%s-%s%d" % (variant, nm, i), mk(ctx.seed * 179424673 + i), variant=variant, backend=backend) for nm, mk in S for i in range(n)]
+        # SQLite builds: C_CopyObject (known finding) stays in the object histories only, so that the other suites judge everything else on an undamaged token
+        def nocopy(t): return "\n".join(("nop" if l.startswith("copy ") else l) for l in t.split("\n"))
+        prep = (lambda nm, t: nocopy(t) if (backend == "db" and nm != "objects") else t)
+        traces = [Trace("%s-%s%d" % (variant, nm, i), prep(nm, mk(ctx.seed * 179424673 + i)), variant=variant, backend=backend) for nm, mk in S for i in range(n)]
         v += k_suite(ctx, kres, "K20-%s (%s)" % (variant, what), traces, lambda m: True, sig_of=lambda m, variant=variant: classify(variant, m), shrink_budget=20)
     return v
 
